@@ -37,11 +37,15 @@ static std::string run_cell(const Cell &c, const KeySpec &k, bool *nt) {
   const AlgInfo *ai = alg_info(c.alg);
   if (c.op == 0) {
     jwt_builder_t *b = jwt_builder_new(); std::string r;
-    jwt_alg_t wa = c.warm ? warm_alg(k, c.alg) : JWT_ALG_NONE, cell_alg = c.alg; bool warmed = false;
+    jwt_alg_t wa = (c.warm == 1 || c.warm == 2) ? warm_alg(k, c.alg) : JWT_ALG_NONE, cell_alg = c.alg; bool warmed = false;
     if (wa != JWT_ALG_NONE && !(c.prov == 1 && !gnutls_supported(k, wa)) && !jwt_builder_setkey(b, wa, priv.item)) { char *w = jwt_builder_generate(b); warmed = w != nullptr; free(w); if (warmed) st.cls("warm-cells(object-just-succeeded-with-this-key-under-another-alg)"); }
+    bool failed_first = false;
+    if (c.warm == 3) {   // the object has just been REFUSED with a key below the floor (error not cleared): an adequate key works all the same
+      static KeySpec weak = oct_key("oct16", 16); JwkOpts wo; LKey wk(jwk_json(weak, wo)); if (wk.item && !jwt_builder_setkey(b, JWT_ALG_HS256, wk.item)) { char *w = jwt_builder_generate(b); failed_first = w == nullptr; free(w); }
+      if (failed_first) st.cls("cells-after-a-refusal-on-the-same-object"); }
     if (warmed && c.warm == 2) jwt_builder_setcb(b, warm_cb_b, &cell_alg);
     else if (jwt_builder_setkey(b, c.attr == 2 ? JWT_ALG_NONE : c.alg, priv.item)) { jwt_builder_free(b); return ok_strength ? "setkey-refuses-adequate-key" : ""; }
-    jwt_builder_error_clear(b);
+    if (!failed_first) jwt_builder_error_clear(b);
     char *out = jwt_builder_generate(b);
     int flag = jwt_builder_error(b); std::string msg = jwt_builder_error_msg(b) ? jwt_builder_error_msg(b) : "";
     if (out && !ok_strength) r = std::string("generate-succeeds-below-floor:") + (k.kind == K_OCT ? "hmac" : k.kind == K_RSA ? "rsa" : k.kind == K_EC ? "ec" : "okp");
@@ -69,13 +73,17 @@ static std::string run_cell(const Cell &c, const KeySpec &k, bool *nt) {
       if (!sg.empty()) { tok = in + "." + b64u_enc(sg); st.cls("cross-family-token-signed-with-the-key's-native-alg"); }
     }
     jwt_checker_t *ch = jwt_checker_new(); std::string r;
-    jwt_alg_t wa = c.warm ? warm_alg(k, c.alg) : JWT_ALG_NONE, cell_alg = c.alg; bool warmed = false;
+    jwt_alg_t wa = (c.warm == 1 || c.warm == 2) ? warm_alg(k, c.alg) : JWT_ALG_NONE, cell_alg = c.alg; bool warmed = false;
     if (wa != JWT_ALG_NONE && !(c.prov == 1 && !gnutls_supported(k, wa)) && !jwt_checker_setkey(ch, wa, pub.item)) {
       std::string wt = ref_token(k, wa, std::string("{\"alg\":\"") + jwt_alg_str(wa) + "\"}", "{\"sub\":\"warm\"}"); warmed = !wt.empty() && jwt_checker_verify(ch, wt.c_str()) == 0;
       if (warmed) st.cls("warm-cells(object-just-succeeded-with-this-key-under-another-alg)"); }
+    bool failed_first = false;
+    if (c.warm == 3) { static KeySpec weak = oct_key("oct16", 16); JwkOpts wo; LKey wk(jwk_json(weak, wo));
+      if (wk.item && !jwt_checker_setkey(ch, JWT_ALG_HS256, wk.item)) { std::string wt = ref_token(weak, JWT_ALG_HS256, "{\"alg\":\"HS256\"}", "{\"sub\":\"weak\"}"); failed_first = jwt_checker_verify(ch, wt.c_str()) != 0; }
+      if (failed_first) st.cls("cells-after-a-refusal-on-the-same-object"); }
     if (warmed && c.warm == 2) jwt_checker_setcb(ch, warm_cb_b, &cell_alg);
     else if (jwt_checker_setkey(ch, c.attr == 2 ? JWT_ALG_NONE : c.alg, pub.item)) { jwt_checker_free(ch); return ok_strength ? "setkey-refuses-adequate-key" : ""; }
-    jwt_checker_error_clear(ch);
+    if (!failed_first) jwt_checker_error_clear(ch);
     int ret = jwt_checker_verify(ch, tok.c_str()); int flag = jwt_checker_error(ch); std::string msg = jwt_checker_error_msg(ch) ? jwt_checker_error_msg(ch) : "";
     if (ret == 0 && !ok_strength) r = std::string("verify-succeeds-below-floor:") + (k.kind == K_OCT ? "hmac" : k.kind == K_RSA ? "rsa" : k.kind == K_EC ? "ec" : "okp");
     else if (ret != 0 && ok_strength && have_sig && (c.prov == 0 || gnutls_supported(k, c.alg))) r = "verify-fails-at-or-above-floor:" + msg.substr(0, 40);
@@ -128,7 +136,9 @@ int main(int argc, char **argv) {
   // every same-family plain cell again on an object that has just succeeded with the key under another algorithm (oct keys: lengths around the thresholds)
   { size_t n0 = cells.size(); for (size_t i = 0; i < n0; i++) { const Cell &c0 = cells[i].first; const AlgInfo *ai = alg_info(c0.alg); if (!ai || ai->kind != cells[i].second.kind || c0.attr || c0.flag) continue;
       if (c0.key == "oct" && !(c0.octlen >= 30 && c0.octlen <= 66)) continue; if (warm_alg(cells[i].second, c0.alg) == JWT_ALG_NONE) continue;
-      auto c2 = cells[i]; c2.first.warm = 1; cells.push_back(c2); c2.first.warm = 2; cells.push_back(c2); } }
+      auto c2 = cells[i]; c2.first.warm = 1; cells.push_back(c2); c2.first.warm = 2; cells.push_back(c2); }
+    for (size_t i = 0; i < n0; i++) { const Cell &c0 = cells[i].first; const AlgInfo *ai = alg_info(c0.alg); if (!ai || ai->kind != cells[i].second.kind || c0.attr || c0.flag) continue;
+      if (c0.key == "oct" && !(c0.octlen >= 30 && c0.octlen <= 66)) continue; auto c2 = cells[i]; c2.first.warm = 3; cells.push_back(c2); } }
   if (a.thorough() && a.worker == 0) {  // fresh RSA keys around the threshold
     static std::vector<KeySpec> fresh; for (const char *w : {"rsa2047", "rsa2048", "rsa1024"}) fresh.push_back(gen_key(w));
     for (auto &k : fresh) { FIX[k.name] = k; for (int prov = 0; prov < 2; prov++) for (int op = 0; op < 2; op++) for (auto al : RS) cells.push_back({Cell{prov, k.name, 0, al, op}, k}); }
